@@ -53,6 +53,10 @@ type TierOpts struct {
 	MaxSteps    int64 `json:"max_steps"`
 	Skip        bool  `json:"skip"`
 	Replays     int   `json:"replays"` // passing paths to re-validate natively
+	// BoundsTier, when set, is the tier whose in-harness bounds (vxTier())
+	// are used; e.g. a thorough entry that keeps the quick bounds because
+	// the larger ones did not finish cleanly within the time limit.
+	BoundsTier *int `json:"bounds_tier"`
 }
 
 type HarnessSpec struct {
@@ -212,6 +216,13 @@ type harnessRun struct {
 	Unconfirmed []string
 }
 
+func effTier(o TierOpts, tier int) int {
+	if o.BoundsTier != nil {
+		return *o.BoundsTier
+	}
+	return tier
+}
+
 func runHarness(ld *loaded, prop string, h HarnessSpec, tier int, known map[string]bool, seed int64) *harnessRun {
 	opts := h.Quick
 	if tier == 1 {
@@ -223,6 +234,9 @@ func runHarness(ld *loaded, prop string, h HarnessSpec, tier int, known map[stri
 		MaxSteps: opts.MaxSteps, MaxPaths: opts.MaxPaths, Preempt: opts.Preempt, PermuteMaps: opts.PermuteMaps, SelectFork: opts.SelectFork, Trace: opts.Trace,
 		Known: known, Tier: tier, StopAtFirstViolation: true, SymbolicChoices: os.Getenv("VX_CONCRETE_CHOICES") == "",
 		CrossCheckEvery: 2000,
+	}
+	if opts.BoundsTier != nil {
+		cfg.Tier = *opts.BoundsTier
 	}
 	if opts.TimeoutS > 0 {
 		cfg.Deadline = time.Now().Add(time.Duration(opts.TimeoutS) * time.Second)
@@ -443,7 +457,7 @@ func cmdCheck(args []string) {
 		}
 		// violations: confirm natively
 		for n, v := range st.Violations {
-			rf := v.ToReplay(prop, h.Fn, tier)
+			rf := v.ToReplay(prop, h.Fn, effTier(opts, tier))
 			name := fmt.Sprintf("%s-%s-%d.json", prop, h.Fn, n)
 			path := filepath.Join(replayDir, name)
 			rf.Write(path)
@@ -497,7 +511,7 @@ func cmdCheck(args []string) {
 			} else {
 				samples := pickSamples(st.Samples, opts.Replays, seed)
 				for n, s := range samples {
-					rf := s.ToReplay(prop, h.Fn, tier)
+					rf := s.ToReplay(prop, h.Fn, effTier(opts, tier))
 					path := filepath.Join(tmpDir(&tmp), fmt.Sprintf("sample-%s-%d.json", h.Fn, n))
 					rf.Write(path)
 					nr, out, err := runNativeRobust(b, path, func(nr *nativeResult) bool {
